@@ -188,6 +188,18 @@ def handle (j : Json) : Json :=
             ("sum", match sumTree a with | some v => gJson v | none => jErr "ValueError"),
             ("norm2sq", jInt ((a.flatten.map fun z => z.re * z.re + z.im * z.im).foldl (· + ·) 0))]
     | _, _ => jErr "bad-args"
+  | some "mean" =>
+    -- forest of integer trees -> rational mean (exact)
+    match (field? j "trees").bind getArr? with
+    | some ts =>
+      match ts.mapM parseTree with
+      | some (t :: rest) =>
+        let toR := PTree.map (fun (i : Int) => (i : Rat))
+        match meanTrees (1 / ((rest.length + 1 : Nat) : Rat)) (toR t :: rest.map toR) with
+        | some r => jObj [("flat", jRats r.flatten)]
+        | none => jErr "ValueError"
+      | _ => jErr "bad-args"
+    | none => jErr "bad-args"
   | some "unary" =>
     match (fStr? j "f").bind unFun, (field? j "x").bind parseTree with
     | some f, some t => jObj [("tree", treeJson (PTree.map f t))]
